@@ -3,9 +3,11 @@ import Comet.Driver.Flat
 import Comet.Driver.Dist
 import Comet.Driver.Atomic
 import Comet.Driver.BM25
+import Comet.Driver.HSearch
 namespace Comet.Driver
 
 def handlers : List Handler := [
+  HSearchStream.handler,
   BM25Stream.handler,
   AtomicStream.handler,
   FlatStream.handler,
